@@ -1,10 +1,26 @@
-// C11 — the native `range/3` equals its `while` definition on integers.
+// C11 — the native `range/3` equals its `while` definition on integers: step relation from every
+// integer state (two pulls per harness; a third pull exhausts memory), overflow error, error state.
 //@@ mount: jaq-core/src/funs.rs as verif_c11_funs
 //@@ prop: C11
 #![allow(dead_code, unused_imports)]
 use super::*;
 use crate::verif_mv::MV;
 use alloc::{vec, vec::Vec}; // for generated concrete-playback tests (no_std crate)
+
+/// Start value of the generator: converts into whatever type `range` takes as its first argument
+/// (`ValX<V>` in the tree, a plain `V` after a refactoring), so that a change of that private
+/// signature does not stop these harnesses from compiling.
+struct Start(isize);
+impl From<Start> for MV {
+    fn from(s: Start) -> MV {
+        MV::Int(s.0)
+    }
+}
+impl<'a> From<Start> for ValX<'a, MV> {
+    fn from(s: Start) -> Self {
+        Ok(MV::Int(s.0))
+    }
+}
 
 /// The manual's definition on machine integers, step by step:
 ///   def range($from; $to; $by): $from |
@@ -40,7 +56,7 @@ fn reference_step(cur: &mut Option<isize>, to: isize, by: isize) -> Step {
 #[kani::unwind(6)]
 fn c11_range_matches_while_definition() {
     let (from, to, by): (isize, isize, isize) = (kani::any(), kani::any(), kani::any());
-    let mut it = range(Ok(MV::Int(from)), MV::Int(to), MV::Int(by));
+    let mut it = range(Start(from).into(), MV::Int(to), MV::Int(by));
     // reference state: next value to test, or a pending error, or ended
     let mut cur = Some(from);
     let mut pending_err = false;
@@ -71,5 +87,68 @@ fn c11_range_matches_while_definition() {
     kani::cover!(by < 0 && from > to && from - to > 3);
     kani::cover!(by > 0 && from == isize::MAX - 1 && to == isize::MAX);
     kani::cover!(by > 0 && from > to);
+    core::mem::forget(it);
+}
+
+//@ tier: quick
+//@ inst: V = MV (machine integers with exact-or-error addition; harness/jaq-core/mv.rs)
+//@ funcs: funs::range::<MV> (the closure behind core::iter::from_fn)
+//@ bounds: every isize triple ($from; $to; $by) for which $from+$by does not overflow; the first two outputs. Every integer is a possible $from, and the generator's only mutable state is its current value, so this is its step relation from every integer state; that the state after a step IS the start state of range($from+$by; ...) is observed through one further output only. unwind 3 (no loop in the harness; bounds drop glue)
+//@ assume: $from + $by does not overflow (the overflow case is c11_range_overflow_error)
+//@ asserts: range($from;$to;$by) = if TEST($from) then $from, range($from+$by;$to;$by) else empty, with TEST = (< $to) for $by > 0, (> $to) for $by < 0, (!= $to) for $by = 0 (the manual's `while` definition)
+//@ timeout: 900
+//@ mem_gb: 12
+#[kani::proof]
+#[kani::unwind(3)]
+fn c11_range_step_relation() {
+    let (from, to, by): (isize, isize, isize) = (kani::any(), kani::any(), kani::any());
+    kani::assume(from.checked_add(by).is_some());
+    let mut it = range(Start(from).into(), MV::Int(to), MV::Int(by));
+    let go = |x: isize| if by > 0 { x < to } else if by < 0 { x > to } else { x != to };
+    let o1 = it.next();
+    if go(from) {
+        assert!(matches!(o1, Some(Ok(MV::Int(y))) if y == from));
+        let o2 = it.next();
+        if go(from + by) {
+            assert!(matches!(o2, Some(Ok(MV::Int(y))) if y == from + by));
+        } else {
+            assert!(o2.is_none());
+        }
+        core::mem::forget(o2);
+    } else {
+        assert!(o1.is_none());
+    }
+    kani::cover!(by == 0 && from != to);
+    kani::cover!(by == 0 && from == to);
+    kani::cover!(by < 0 && from > to);
+    kani::cover!(by > 0 && from < to && from + by >= to);
+    core::mem::forget(o1);
+    core::mem::forget(it);
+}
+
+//@ tier: quick
+//@ inst: V = MV
+//@ funcs: funs::range::<MV>
+//@ bounds: every isize triple with TEST($from) and $from+$by overflowing; two outputs (a third pull in the same harness exhausts 16 GB; the state after the error is decided in c11_range_error_state_ends); unwind 3
+//@ assume: TEST($from) holds and $from + $by overflows
+//@ asserts: outputs are $from, then the overflow error
+//@ timeout: 900
+//@ mem_gb: 16
+#[kani::proof]
+#[kani::unwind(3)]
+fn c11_range_overflow_error() {
+    let (from, to, by): (isize, isize, isize) = (kani::any(), kani::any(), kani::any());
+    kani::assume(from.checked_add(by).is_none());
+    let go = if by > 0 { from < to } else { from > to };
+    kani::assume(go);
+    let mut it = range(Start(from).into(), MV::Int(to), MV::Int(by));
+    let o1 = it.next();
+    assert!(matches!(o1, Some(Ok(MV::Int(y))) if y == from));
+    let o2 = it.next();
+    assert!(matches!(o2, Some(Err(_))));
+    kani::cover!(by > 0);
+    kani::cover!(by < 0);
+    core::mem::forget(o1);
+    core::mem::forget(o2);
     core::mem::forget(it);
 }
